@@ -61,7 +61,8 @@ MODES = {'exe'  : rp.TASK_EXECUTABLE, 'func': rp.TASK_FUNC, 'eval' : rp.TASK_EVA
          'exec' : rp.TASK_EXEC,       'proc': rp.TASK_PROC, 'shell': rp.TASK_SHELL}
 PY_MODES   = ('func', 'eval', 'exec')
 PROC_MODES = ('proc', 'shell')
-KINDS      = ('ret', 'print', 'raise', 'setenv', 'delenv', 'swapout', 'coro', 'tenv', 'sysexit')
+KINDS      = ('ret', 'print', 'raise', 'setenv', 'delenv', 'swapout', 'coro', 'tenv', 'sysexit',
+              'die')
 PROC_KINDS = ('ret', 'print', 'raise', 'tenv', 'sig')
 TRACKED    = ('RPV_X', 'RPV_KEEP', 'RPV_T')
 
@@ -131,6 +132,13 @@ def pay_tenv():
 def pay_sysexit():
     sys.exit(3)
 
+class ChildDied(BaseException):
+    '''stands for the payload process ending abruptly (os._exit, SIGKILL,
+       SIGSEGV): nothing of the code above the payload gets to run any more'''
+
+def pay_die():
+    raise ChildDied()
+
 def pay_rank(*args):
     '''a function which runs on every rank of a request: args = [comm,] kinds'''
     kinds = args[-1]
@@ -149,7 +157,8 @@ EVAL_CODE = {
     'delenv' : "os.environ.__delitem__('RPV_KEEP')",
     'swapout': "[setattr(sys, 'stdout', io.StringIO()), setattr(sys, 'stderr', io.StringIO())][2:] or None",
     'tenv'   : "os.environ.get('RPV_T')",
-    'sysexit': 'sys.exit(3)'}
+    'sysexit': 'sys.exit(3)',
+    'die'    : 'self.pay_die()'}
 
 EXEC_CODE = {
     'ret'    : 'return 7',
@@ -159,7 +168,8 @@ EXEC_CODE = {
     'delenv' : "import os\ndel os.environ['RPV_KEEP']",
     'swapout': "import sys, io\nsys.stdout = io.StringIO()\nsys.stderr = io.StringIO()",
     'tenv'   : "import os\nreturn os.environ.get('RPV_T')",
-    'sysexit': "import sys\nsys.exit(3)"}
+    'sysexit': "import sys\nsys.exit(3)",
+    'die'    : "from harness.rigs import raptor_rig\nraptor_rig.pay_die()"}
 
 SH_CODE = {
     'ret'  : 'true',
@@ -170,7 +180,7 @@ SH_CODE = {
 
 
 def describe(uid, r):
-    '''task description of a request (through the real TaskDescription)'''
+    '''task dict of a request (through the real TaskDescription and Task)'''
     mode, kind = r['mode'], r['kind']
     d = {'uid': uid, 'mode': MODES[mode], 'raptor_id': MASTER_UID,
          'timeout': 5.0 if r['tmo'] else 0.0}
@@ -184,9 +194,26 @@ def describe(uid, r):
     elif mode == 'exec' : d['code']       = EXEC_CODE[kind]
     elif mode == 'proc' : d['executable'] = '/bin/sh'; d['arguments'] = ['-c', SH_CODE[kind]]
     elif mode == 'shell': d['command']    = SH_CODE[kind]
+    return make_task(d)
+
+
+class _Tmgr(object):
+    '''what rp.Task needs of its task manager'''
+    uid, session, _log = 'tmgr.0000', None, rpshim.NullLog()
+
+    def advance(self, *a, **k):
+        pass
+
+
+def make_task(d):
+    '''task dict as the real code makes it: rp.Task(description).as_dict() -
+       all keys of a task are there (exit_code, exception, ... are None)'''
     td = rp.TaskDescription(d)
     td.verify()
-    return td.as_dict()
+    t = rp.Task(_Tmgr(), td, 'client').as_dict()
+    t['description'] = td.as_dict()
+    t['state'] = rps.AGENT_SCHEDULING
+    return t
 
 
 # ------------------------------------------------------------------------------
@@ -515,6 +542,7 @@ class RaptorRig(DispatcherBench):
         script : None (seeded random schedule) or list of operations
                    ('dispatch', uid) ('take', uid) ('finish', uid, sched)
                    ('deliver', uid, n) ('result', uid) ('localdone', uid, ec)
+                   ('inject', uid, ec, exc[, absent])
                  operations which are not enabled when their turn comes are
                  skipped; once the script is used up the rig drives the rest to
                  the end (first enabled operation).
@@ -551,9 +579,8 @@ class RaptorRig(DispatcherBench):
 
         self.tasks = {}
         for uid, r in reqs.items():
-            self.tasks[uid] = {'uid': uid, 'type': 'task', 'origin': 'client',
-                               'state': rps.AGENT_SCHEDULING, 'description': describe(uid, r),
-                               'cores': r['c'], 'gpus': r['g']}
+            self.tasks[uid] = describe(uid, r)
+            self.tasks[uid].update({'cores': r['c'], 'gpus': r['g']})
 
     # --------------------------------------------------------------------------
     def _make_master(self):
@@ -732,6 +759,24 @@ class RaptorRig(DispatcherBench):
         self.mresq.remove(t)
         self.m._result_cb([t])
 
+    def do_inject(self, uid, ec, exc, absent=False):
+        '''a worker sends the request back as ...: exit code `ec` ('none': not
+           set; absent: the key is not there at all), exception set or not.
+           Stands for any worker; the real Master._result_cb has to classify it.'''
+        cand = [t for t in self.wq if t['uid'] == uid]
+        if not cand:
+            return
+        t = cand[0]
+        self.wq.remove(t)
+        t['exit_code'] = None if ec == 'none' else int(ec)
+        if ec == 'none' and absent:
+            del t['exit_code']
+        if exc:
+            t['exception']        = "RuntimeError('injected')"
+            t['exception_detail'] = 'injected'
+        self.log('Inject', uid=uid, ec=str(ec), exc=bool(exc))
+        self._on_res_put([t])
+
     def do_localdone(self, uid, ec):
         cand = [t for t in self.agent if t['uid'] == uid]
         if not cand:
@@ -742,7 +787,7 @@ class RaptorRig(DispatcherBench):
         t['exit_code'] = int(ec)
         if self.rng.random() < 0.5:
             t['target_state'] = rps.DONE if int(ec) == 0 else rps.FAILED
-        self.log('Local', uid=uid, seen=bool(t.get('raptor_seen')))
+        self.log('Local', uid=uid, seen=bool(t.get('raptor_seen')), ec=str(int(ec)))
         self.m._state_cb(rpc.STATE_PUBSUB, {'cmd': 'raptor_state_update', 'arg': [t]})
 
     # schedule -------------------------------------------------------------------
@@ -774,6 +819,7 @@ class RaptorRig(DispatcherBench):
         if k == 'deliver'  : return not self.wdead and any(e['uid'] == op[1] for e in self.resq)
         if k == 'result'   : return any(t['uid'] == op[1] for t in self.mresq)
         if k == 'localdone': return any(t['uid'] == op[1] for t in self.agent)
+        if k == 'inject'   : return any(t['uid'] == op[1] for t in self.wq)
         return False
 
     def next_op(self):
@@ -807,6 +853,7 @@ class RaptorRig(DispatcherBench):
         elif k == 'deliver'  : self.do_deliver(op[1], op[2] if len(op) > 2 else None)
         elif k == 'result'   : self.do_result(op[1])
         elif k == 'localdone': self.do_localdone(op[1], op[2])
+        elif k == 'inject'   : self.do_inject(*op[1:])
 
     def sleep(self, dt):
         '''the wait-for-resources poll of DefaultWorker._request_cb'''
@@ -869,7 +916,7 @@ class ChainRig(DispatcherBench):
         try:
             for uid in self.order:
                 r    = self.reqs[uid]
-                task = {'uid': uid, 'description': describe(uid, r)}
+                task = describe(uid, r)
                 disp = self.w.get_dispatcher(MODES[r['mode']])
                 try:
                     if r['mode'] == 'func': asyncio.run(disp(task))
@@ -976,13 +1023,15 @@ MPI_ENV   = {'RP_TASK_SANDBOX': None, 'RP_PILOT_ID': 'pilot.0000', 'RP_SESSION_I
              'RP_PROF': '/bin/true', 'RP_PROF_TGT': '/dev/null'}
 
 
-def mpi_req(n=1, mode='func', rk=None):
-    '''a request for the MPI worker: n ranks, rk[i] in ok | raise | sig is what
-       the call does on the i-th of its ranks (sig: shell only)'''
+def mpi_req(n=1, mode='func', rk=None, pf=-1):
+    '''a request for the MPI worker: n ranks (may exceed what the worker has),
+       rk[i] in ok | raise | sig is what the call does on the i-th of its ranks
+       (sig: shell only); pf >= 0: sending the copy for the pf-th rank fails'''
     rk = list(rk or ['ok'] * n)
     assert len(rk) == n and mode in MPI_MODES
     assert all(o in ('ok', 'raise') or (o == 'sig' and mode == 'shell') for o in rk)
-    return dict(c=n, g=0, mode=mode, kind='ret', rk=rk, tmo=False, sf=False, via='attr')
+    return dict(c=n, g=0, mode=mode, kind='ret', rk=rk, tmo=False, sf=False, via='attr',
+                pf=int(pf))
 
 
 def describe_mpi(uid, r):
@@ -998,9 +1047,7 @@ def describe_mpi(uid, r):
         d['command'] = 'case $RP_RANK in ' + ''.join(
             '%d) echo partial; exit 3;; ' % i if o == 'raise' else '%d) kill -9 $$;; ' % i
             for i, o in enumerate(rk) if o != 'ok') + 'esac; true'
-    td = rp.TaskDescription(d)
-    td.verify()
-    return td.as_dict()
+    return make_task(d)
 
 
 class AbortLog(rpshim.NullLog):
@@ -1139,9 +1186,9 @@ class MPIRig(RaptorRig):
         self.m = self._make_master()
         self.tasks = {}
         for uid, r in reqs.items():
-            self.tasks[uid] = {'uid': uid, 'name': 'name.' + uid, 'type': 'task', 'origin': 'client',
-                               'state': rps.AGENT_SCHEDULING, 'description': describe_mpi(uid, r),
-                               'task_sandbox_path': '%s/%s' % (sandbox(), uid)}
+            self.tasks[uid] = describe_mpi(uid, r)
+            self.tasks[uid].update({'name': 'name.' + uid,
+                                    'task_sandbox_path': '%s/%s' % (sandbox(), uid)})
 
     def log(self, ev, **kw):
         e = {'ev': ev}
@@ -1167,13 +1214,18 @@ class MPIRig(RaptorRig):
             return [self.rankq[int(qname)].pop(0)]
         cand = [t for t in self.rresq if (t['uid'], t['rank']) == self.upick] or self.rresq
         self.upick = None
-        self.rresq.remove(cand[0])
-        return [cand[0]]
+        t = cand[0]
+        self.rresq.remove(t)
+        return [t]
 
     def q_put(self, channel, qname, msg):
         for t in ru.as_list(msg):
             t = copy.deepcopy(t)
             if channel == 'rank_tasks':
+                pf = self.reqs[t['uid']].get('pf', -1)
+                if pf >= 0 and t['ranks'].index(t['rank']) == pf:
+                    self.log('SendFail', uid=t['uid'], rank=int(t['rank']))
+                    raise OSError('cannot send %s to rank %s' % (t['uid'], qname))
                 self.rankq[int(qname)].append(t)
             elif channel == 'rank_results':
                 self.rresq.append(t)
